@@ -4,7 +4,8 @@ import json,os,shutil
 reg=json.load(open('/verif/tools/seeds.json'))
 for sid,m in reg.items():
     pid,k=sid.split('-')
-    raw=f'/verif/seeded_raw/{pid}'
+    raw=f'/verif/seeded_raw/{m.get("raw",pid)}'
+    k=m.get('k',k)
     if not os.path.isdir(raw): continue
     out=f'/verif/seeded/{sid}'
     shutil.rmtree(out,ignore_errors=True); os.makedirs(out)
